@@ -303,7 +303,7 @@ def install(spec: Spec):
         return mk_none()
 
     PE_RAISES = [RaisesClause('CancelledError', label='cancelled', tags=['C10', 'C16']),
-                 RaisesClause('RuntimeError', label='recursion_guard', tags=['C01', 'C03', 'C11', 'C15'], origin='call:EventBus._get_applicable_handlers'),
+                 RaisesClause('RuntimeError', label='recursion_guard', tags=['C01', 'C03', 'C11', 'C15'], origin='call:EventBus._get_applicable_handlers', caller_only=True),
                  RaisesClause('Exception', label='unexpected', caller_only=True)]
     spec.ghosts['wal_calls'] = parse_ty('int')   # _default_wal_handler activations started by this task (task-owned)
 
@@ -338,12 +338,13 @@ def install(spec: Spec):
             requires=[('lock_held', "ctx('holds_global_lock')", ['C06', 'C02']), ('in_loop', 'loop_running()', []), ('serial_bus', 'not self.parallel_handlers', [])],
             modifies=[('event_results', '*'), ('status', '*'), ('result', '*'), ('error', '*'), ('started_at', '*'), ('completed_at', '*'), ('_handler_completed_signal', '*'),
                       ('ev_set', '*'), ('task_done', '*'), ('task_cancel_requested', '*'), ('event_processed_at', '*'), ('_event_completed_signal', '*'), ('event_history', '*')],
-            ghost_modifies=['processed', 'invoked', 'eh_calls', 'wal_calls'],
+            ghost_modifies=['processed', 'invoked', 'eh_calls', 'wal_calls', 'wal_lines', 'wal_opens'],
             callsites={'self._get_applicable_handlers': {'pre': pe_first_stmt, 'ghost_writes': ['processed']},
                        'self._execute_handlers': {'pre': pe_before_handlers},
                        'self._default_log_handler': {'pre': lambda ex, n: ex.st.flags.__setitem__('handlers_phase', 'done')},
                        'self._default_wal_handler': {'pre': pe_wal_pre, 'ghost_writes': ['wal_calls']},
                        'event.event_result_update': {'pre': pe_pending_result_pre}},
+            raises_tags=['C01', 'C03', 'C11', 'C15'],
             exits_ensure=[('entered_once', 'processed == old(processed) + [event]', ['C01'])],
             ensures=[('one_wal_append', 'wal_calls == old(wal_calls) + 1', ['C17']),
                      ('history_bound', 'implies(self.max_history_size is not None and self.max_history_size > 0, len(self.event_history) <= self.max_history_size)', ['C13'])],
@@ -352,13 +353,15 @@ def install(spec: Spec):
 
     # whoever runs with holds_global_lock set is inside at least one `async with` of the (existing) global lock
     LOCK_INV = ('lock_depth_positive_while_held', "implies(ctx('holds_global_lock'), _global_eventbus_lock is not None and _global_eventbus_lock._depth >= 1)", ['C06'])
+    SERIAL = ('serial_bus', 'not self.parallel_handlers', [])
     STARTED = ('started', 'self._on_idle is not None and self.event_queue is not None and loop_running()', [])
     spec.fn('EventBus.step', file=S, qual='EventBus.step', is_async=True,
             params={'self': 'EventBus', 'event': 'opt[BaseEvent]', 'timeout': 'opt[real]', 'wait_for_timeout': 'real'}, returns='opt[BaseEvent]',
-            requires=[STARTED, LOCK_INV], assume_asserts=['self._on_idle and self.event_queue'], interference='runloop',
+            requires=[STARTED, LOCK_INV, SERIAL], assume_asserts=['self._on_idle and self.event_queue'], interference='runloop',
             modifies=[('q_items', '*'), ('q_unfinished', '*'), ('ev_set', '*'), ('task_done', '*'), ('task_cancel_requested', '*'), ('_depth', '*'),
-                      ('_semaphore', '*'), ('_loop', '*'), ('sem_value', '*'), ('g$global_lock', '*')],
-            ghost_modifies=['dequeued', 'processed', 'task_done_calls', 'permits_held'],
+                      ('_semaphore', '*'), ('_loop', '*'), ('sem_value', '*'), ('g$global_lock', '*'), ('event_results', '*'), ('status', '*'), ('result', '*'), ('error', '*'),
+                      ('started_at', '*'), ('completed_at', '*'), ('_handler_completed_signal', '*'), ('event_processed_at', '*'), ('_event_completed_signal', '*'), ('event_history', '*')],
+            ghost_modifies=['dequeued', 'processed', 'task_done_calls', 'permits_held', 'invoked', 'eh_calls', 'wal_calls', 'wal_lines', 'wal_opens'],
             callsites={'self.event_queue.task_done': {'model': task_done_model, 'writes': ['q_unfinished'], 'ghost_writes': ['task_done_calls']}},
             exits_ensure=[
                 ('no_task_done_for_a_given_event', 'implies(old(event) is not None, task_done_calls == old(task_done_calls))', ['C15']),
@@ -401,10 +404,11 @@ def install(spec: Spec):
                       z3.Or(smt.issub(t, smt.CLASSES['RuntimeError']), smt.issub(t, smt.CLASSES['QueueShutDown'])), ['C11'])
 
     spec.fn('EventBus._run_loop', file=S, qual='EventBus._run_loop', is_async=True, params={'self': 'EventBus'}, returns='NoneType', interference='runloop',
-            requires=[STARTED], ctx_modifies=['holds_global_lock', 'inside_handler', 'current_event', 'current_handler_id'],
-            modifies=[('_is_running', 'self'), ('ev_set', '*'), ('q_items', '*'), ('q_unfinished', '*'), ('task_done', '*'), ('task_cancel_requested', '*'),
-                      ('_depth', '*'), ('_semaphore', '*'), ('_loop', '*'), ('sem_value', '*'), ('g$global_lock', '*')],
-            ghost_modifies=['dequeued', 'processed', 'task_done_calls', 'permits_held'],
+            requires=[STARTED, SERIAL], ctx_modifies=['holds_global_lock', 'inside_handler', 'current_event', 'current_handler_id'],
+            modifies=[('_is_running', 'self')] + [('q_items', '*'), ('q_unfinished', '*'), ('ev_set', '*'), ('task_done', '*'), ('task_cancel_requested', '*'), ('_depth', '*'),
+                      ('_semaphore', '*'), ('_loop', '*'), ('sem_value', '*'), ('g$global_lock', '*'), ('event_results', '*'), ('status', '*'), ('result', '*'), ('error', '*'),
+                      ('started_at', '*'), ('completed_at', '*'), ('_handler_completed_signal', '*'), ('event_processed_at', '*'), ('_event_completed_signal', '*'), ('event_history', '*')],
+            ghost_modifies=['dequeued', 'processed', 'task_done_calls', 'permits_held', 'invoked', 'eh_calls', 'wal_calls', 'wal_lines', 'wal_opens'],
             callsites={'self.step': {'pre': runloop_step_pre}, 'self._on_idle.set': {'pre': idle_set_pre}},
             exit_hook=runloop_exit,
             loops={0: {'inv': [('started', 'self._on_idle is not None and self.event_queue is not None', []),
